@@ -144,7 +144,18 @@ func c17Body(c *C17Case) Verdict {
 			if a.Phase == "post" {
 				// an error Result reaches a Result-style post as IsError()+Error() (Value() nil) and an
 				// Any-style post as its Value(), i.e. nil: every style must observe the same payload
-				if !deepEq(a.In2, b.In2) {
+				// Twins with the same post style must observe exactly the same thing (option vs
+				// builder construction may not differ). Across post styles an error Result has two
+				// admissible renderings on the Any side (nil, or the Result carrying the error),
+				// which c17Judge checks for each twin on its own.
+				sameStyle := sc.Nodes[a.Leaf].Leaf.Style&SPostAny == tw.Nodes[b.Leaf].Leaf.Style&SPostAny
+				errRes := false
+				for _, e := range tx {
+					if e.Leaf == a.Leaf && e.Visit == a.Visit && e.RetResErr != nil {
+						errRes = true
+					}
+				}
+				if (sameStyle || !errRes) && !deepEq(a.In2, b.In2) {
 					return bad("C17:twin-payload", "%s: the two style assignments observe different exec results in post: %#v vs %#v (styles %05b vs %05b)", a, a.In2, b.In2, sc.Nodes[a.Leaf].Leaf.Style, tw.Nodes[b.Leaf].Leaf.Style)
 				}
 			}
